@@ -15,8 +15,9 @@ def tup(x):
     return x
 
 
-def make_task(sig, conds, weakly, cfgs, qspec, keys=None, via="api", wsig=None, cls=None, scope="", qslice=None):
+def make_task(sig, conds, weakly, cfgs, qspec, keys=None, via="api", wsig=None, cls=None, scope="", qslice=None, labels=False):
     return {
+        "labels": bool(labels),
         "qslice": tuple(qslice) if qslice else None,
         "sig": list(sig), "wsig": list(wsig or sig), "conds": [tup(c) for c in conds], "weakly": bool(weakly),
         "cfgs": list(cfgs), "qspec": tuple(qspec), "keys": list(keys) if keys else None, "via": via, "cls": cls,
@@ -77,7 +78,12 @@ def build_bb(task):
         if task["keys"]:
             raise ValueError("parse path has parser keys")
         return bb
-    return drive.mkbb(task["sig"], task["conds"], task["keys"])
+    bb = drive.mkbb(task["sig"], task["conds"], task["keys"])
+    if task.get("labels"):
+        # the text representation of a conditional is a free-form label: nothing may depend on it being the formula's text
+        for i, cnd in enumerate(bb.conditionals.values(), start=1):
+            cnd.textRepresentation = "r%d" % i
+    return bb
 
 
 def refbase(task):
@@ -89,7 +95,7 @@ def case_of(task, cfg, qc, vf):
     return {
         "scope": task["scope"], "sig": task["sig"], "wsig": task["wsig"],
         "conds": [forms.ctxt(c) for c in task["conds"]], "conds_f": task["conds"], "keys": task["keys"],
-        "weakly": task["weakly"], "via": task["via"], "config": cfg, "cls": task["cls"],
+        "weakly": task["weakly"], "via": task["via"], "config": cfg, "cls": task["cls"], "labels": task.get("labels", False),
         "query": forms.ctxt(qc), "query_f": qc, "V": vf[0], "F": vf[1],
     }
 
@@ -196,7 +202,7 @@ def replay(rec):
     """Re-execute one recorded (base, configuration, query) without the explorer."""
     c = rec["case"]
     task = make_task(c["sig"], c["conds_f"], c["weakly"], [c["config"]], ("list", [c["query_f"]]), keys=c["keys"],
-                     via=c["via"], wsig=c["wsig"], cls=c.get("cls"), scope=c.get("scope", ""))
+                     via=c["via"], wsig=c["wsig"], cls=c.get("cls"), scope=c.get("scope", ""), labels=c.get("labels", False))
     rb, qs, answers = run_impl(task)
     got = answers[c["config"]][0]
     system = SYS_OF.get(c["config"], c["config"].split("@")[0])
